@@ -22,6 +22,8 @@ DRIVER = os.path.join(VERIF, "factgen", "target", "debug", "factgen")
 # config name -> (cargo args, expected crates {crate: min MIR bodies})
 CONFIGS = {
     "ws": (["--workspace"], {"netconf": 800, "bgpfu": 25, "bgpfu_cli": 15, "bgpfu_junos_agent": 250}),
+    # full (codegen) build of bgpfu-lib: dependency rmeta then carries MIR of generic functions (rpsl / irrc)
+    "lib-full": (["build", "-p", "bgpfu-lib"], {"bgpfu": 25}),
     "nc-ssh": (["-p", "bgpfu-netconf", "--no-default-features", "--features", "ssh"], {"netconf": 600}),
     "nc-tls": (["-p", "bgpfu-netconf", "--no-default-features", "--features", "tls"], {"netconf": 600}),
     "nc-tls-junos": (["-p", "bgpfu-netconf", "--no-default-features", "--features", "tls,junos"], {"netconf": 800}),
@@ -102,8 +104,11 @@ def _run_driver(src, cargo_args, out_dir, target_dir, extra_env=None):
     env.pop("RUSTC_WRAPPER", None)
     if extra_env:
         env.update(extra_env)
+    sub = "check"
+    if cargo_args and cargo_args[0] in ("build", "check"):
+        sub, cargo_args = cargo_args[0], cargo_args[1:]
     r = subprocess.run(
-        ["cargo", "+nightly", "check", "--offline"] + cargo_args,
+        ["cargo", "+nightly", sub, "--offline"] + cargo_args,
         cwd=src, env=env, capture_output=True, text=True,
     )
     return r
